@@ -26,6 +26,18 @@ type wireReq struct {
 
 type member struct{ name, raw string }
 
+// pick draws an index in [0,n). rapid's integers lean toward small values;
+// a multiplicative hash of a 64-bit draw spreads them evenly over the
+// choices while 0 (the value rapid shrinks to) still selects choice 0.
+func pick(t *rapid.T, label string, n int) int {
+	v := rapid.Uint64().Draw(t, label)
+	return int(((v * 0x9E3779B97F4A7C15) >> 33) % uint64(n))
+}
+
+func pickS(t *rapid.T, label string, choices []string) string { return choices[pick(t, label, len(choices))] }
+
+func chance(t *rapid.T, label string, percent int) bool { return pick(t, label, 100) >= 100-percent }
+
 // elemSpec is one generated request (single message or batch element).
 type elemSpec struct {
 	Kind   string `json:"kind"`
@@ -93,7 +105,7 @@ var fixedKeys = []string{
 }
 
 func genKey(t *rapid.T) string {
-	switch c := rapid.IntRange(0, 14).Draw(t, "keyShape"); {
+	switch c := pick(t, "keyShape", 15); {
 	case c <= 3: // the node's default: 16 random bytes in hex
 		return rapid.StringMatching(`[0-9a-f]{32}`).Draw(t, "hexKey")
 	case c == 4:
@@ -139,7 +151,7 @@ type keyVariant struct {
 func one(name, raw string) []member { return []member{{name, raw}} }
 
 func otherString(t *rapid.T, k string) string {
-	s := rapid.SampledFrom([]string{"secret", "admin", "0", "key", "*", "%", "' OR 1=1 --", "undefined", "\u0000"}).Draw(t, "otherKey")
+	s := pickS(t, "otherKey", []string{"secret", "admin", "0", "key", "*", "%", "' OR 1=1 --", "undefined", "\u0000"})
 	if s == k {
 		s += "_"
 	}
@@ -172,11 +184,11 @@ var unkeyedVariants = []keyVariant{
 	{label: "absent", members: func(t *rapid.T, k string) []member { return nil }},
 	{label: "empty", members: func(t *rapid.T, k string) []member { return one("key", `""`) }},
 	{label: "suffix", members: func(t *rapid.T, k string) []member {
-		return one("key", jstr(k+rapid.SampledFrom([]string{"x", " ", "\u0000", "\n", k}).Draw(t, "suffix")))
+		return one("key", jstr(k+pickS(t, "suffix", []string{"x", " ", "\u0000", "\n", k})))
 	}},
 	{label: "prefix", members: func(t *rapid.T, k string) []member {
 		rs := []rune(k)
-		n := rapid.SampledFrom([]int{len(rs) - 1, len(rs) / 2, 1, (len(rs)*3 + 3) / 4}).Draw(t, "prefixLen")
+		n := []int{len(rs) - 1, len(rs) / 2, 1, (len(rs)*3 + 3) / 4}[pick(t, "prefixLen", 4)]
 		if n >= len(rs) {
 			n = len(rs) - 1
 		}
@@ -186,11 +198,11 @@ var unkeyedVariants = []keyVariant{
 		return one("key", jstr(string(rs[:n])))
 	}},
 	{label: "inner", members: func(t *rapid.T, k string) []member { // K is a proper suffix / substring
-		return one("key", jstr(rapid.SampledFrom([]string{"x", " ", "0"}).Draw(t, "lead")+k))
+		return one("key", jstr(pickS(t, "lead", []string{"x", " ", "0"})+k))
 	}},
 	{label: "case", members: func(t *rapid.T, k string) []member {
 		c := swapCase(k)
-		if rapid.Bool().Draw(t, "upperOnly") {
+		if pick(t, "upperOnly", 2) == 1 {
 			c = strings.ToUpper(k)
 			if c == k {
 				c = strings.ToLower(k)
@@ -207,16 +219,16 @@ var unkeyedVariants = []keyVariant{
 		if _, err := strconv.ParseUint(k, 10, 63); err == nil && k[0] != '0' {
 			return one("key", k) // the key's digits as a JSON number
 		}
-		return one("key", rapid.SampledFrom([]string{"0", "1", "12345", "-1", "1.5", "1e3"}).Draw(t, "numKey"))
+		return one("key", pickS(t, "numKey", []string{"0", "1", "12345", "-1", "1.5", "1e3"}))
 	}},
 	{label: "bool", badType: true, members: func(t *rapid.T, k string) []member {
-		return one("key", rapid.SampledFrom([]string{"true", "false"}).Draw(t, "boolKey"))
+		return one("key", pickS(t, "boolKey", []string{"true", "false"}))
 	}},
 	{label: "array", badType: true, members: func(t *rapid.T, k string) []member {
-		return one("key", rapid.SampledFrom([]string{"[" + jstr(k) + "]", "[]"}).Draw(t, "arrKey"))
+		return one("key", pickS(t, "arrKey", []string{"[" + jstr(k) + "]", "[]"}))
 	}},
 	{label: "object", badType: true, members: func(t *rapid.T, k string) []member {
-		return one("key", rapid.SampledFrom([]string{`{"key":` + jstr(k) + `}`, "{}"}).Draw(t, "objKey"))
+		return one("key", pickS(t, "objKey", []string{`{"key":` + jstr(k) + `}`, "{}"}))
 	}},
 	{label: "dup-first-good", members: func(t *rapid.T, k string) []member {
 		return []member{{"key", jstr(k)}, {"key", jstr(otherString(t, k))}}
@@ -225,10 +237,10 @@ var unkeyedVariants = []keyVariant{
 		return []member{{"KEY", jstr(k)}, {"key", jstr(otherString(t, k))}}
 	}},
 	{label: "name-other", members: func(t *rapid.T, k string) []member {
-		return one(rapid.SampledFrom([]string{"apiKey", "api_key", "key ", "keys", "k", "apikey", "token"}).Draw(t, "keyName"), jstr(k))
+		return one(pickS(t, "keyName", []string{"apiKey", "api_key", "key ", "keys", "k", "apikey", "token"}), jstr(k))
 	}},
 	{label: "nested", members: func(t *rapid.T, k string) []member { // the key only inside another member
-		return one(rapid.SampledFrom([]string{"auth", "meta", "params2"}).Draw(t, "nestName"), `{"key":`+jstr(k)+`}`)
+		return one(pickS(t, "nestName", []string{"auth", "meta", "params2"}), `{"key":`+jstr(k)+`}`)
 	}},
 }
 
@@ -239,38 +251,35 @@ type idShape struct {
 	valid bool
 }
 
-func genID(t *rapid.T, seq int) idShape {
-	switch c := rapid.IntRange(0, 29).Draw(t, "idShape"); {
-	case c <= 13:
+// genID draws the id member. Malformed ids (the server then refuses the whole
+// message) appear only in noisy messages, in ~12% of their elements.
+func genID(t *rapid.T, seq int, noisy bool) idShape {
+	if noisy && chance(t, "badId", 12) {
+		return []idShape{{"", false} /* notification form */, {"true", false}, {`{"n":1}`, false}, {"[1]", false}}[pick(t, "badIdShape", 4)]
+	}
+	switch c := pick(t, "idShape", 24); {
+	case c <= 11:
 		return idShape{strconv.Itoa(seq + 1), true}
-	case c == 14:
+	case c == 12:
 		return idShape{"7", true} // likely duplicate inside a batch
-	case c == 15:
+	case c == 13:
 		return idShape{"12345678901234567890123", true}
-	case c == 16:
+	case c == 14:
 		return idShape{"-3", true}
-	case c == 17:
+	case c == 15:
 		return idShape{"1.5", true}
-	case c == 18:
+	case c == 16:
 		return idShape{"1e3", true}
-	case c == 19:
+	case c == 17:
 		return idShape{jstr(fmt.Sprintf("s%d", seq)), true}
-	case c == 20:
+	case c == 18:
 		return idShape{`""`, true}
-	case c == 21:
+	case c == 19:
 		return idShape{jstr("id-ü-\"q\"-<&>"), true}
-	case c == 22, c == 23:
+	case c == 20, c == 21:
 		return idShape{"null", true}
-	case c == 24:
+	case c == 22:
 		return idShape{jstrEsc(fmt.Sprintf("e%d", seq)), true}
-	case c == 25:
-		return idShape{"", false} // notification form: no id
-	case c == 26:
-		return idShape{"true", false}
-	case c == 27:
-		return idShape{`{"n":1}`, false}
-	case c == 28:
-		return idShape{"[1]", false}
 	default:
 		return idShape{fmt.Sprintf(" %d ", seq+100), true}
 	}
@@ -281,20 +290,21 @@ type verShape struct {
 	clean bool
 }
 
-func genVersion(t *rapid.T) verShape {
-	switch c := rapid.IntRange(0, 19).Draw(t, "version"); {
-	case c <= 14:
-		return verShape{one("jsonrpc", `"2.0"`), true}
-	case c == 15:
-		return verShape{nil, true}
-	case c == 16:
-		return verShape{one("jsonrpc", `"1.0"`), true}
-	case c == 17:
-		return verShape{one("jsonrpc", `null`), true}
-	case c == 18:
-		return verShape{one("version", `"2.0"`), true}
-	default:
+func genVersion(t *rapid.T, noisy bool) verShape {
+	if noisy && chance(t, "badVersion", 5) {
 		return verShape{one("jsonrpc", `2.0`), false} // number: cannot decode into the string field
+	}
+	switch c := pick(t, "version", 16); {
+	case c <= 11:
+		return verShape{one("jsonrpc", `"2.0"`), true}
+	case c == 12:
+		return verShape{nil, true}
+	case c == 13:
+		return verShape{one("jsonrpc", `"1.0"`), true}
+	case c == 14:
+		return verShape{one("jsonrpc", `null`), true}
+	default:
+		return verShape{one("version", `"2.0"`), true}
 	}
 }
 
@@ -312,18 +322,39 @@ var kindTable = []struct {
 	{"dup-method", 2}, {"odd-member", 2}, {"garbage-elem", 1},
 }
 
-var kindPool = func() []string {
+// kinds that make the server refuse the whole message whatever the keys are
+var noisyKinds = map[string]bool{"odd-member": true, "garbage-elem": true}
+
+func makeKindPool(noisy bool) []string {
 	var p []string
 	for _, k := range kindTable {
+		if noisyKinds[k.kind] && !noisy {
+			continue
+		}
 		for i := 0; i < k.w; i++ {
 			p = append(p, k.kind)
 		}
 	}
 	return p
-}()
+}
+
+var kindPoolQuiet, kindPoolNoisy = makeKindPool(false), makeKindPool(true)
+
+func variantPool(all []keyVariant, noisy bool) []keyVariant {
+	var p []keyVariant
+	for _, v := range all {
+		if v.badType && !noisy {
+			continue
+		}
+		p = append(p, v)
+	}
+	return p
+}
+
+var unkeyedQuiet, unkeyedNoisy = variantPool(unkeyedVariants, false), variantPool(unkeyedVariants, true)
 
 func smallString(t *rapid.T, label string) string {
-	return rapid.SampledFrom([]string{"a", "", "héllo", `q"uo\te`, "@", "x y", "0"}).Draw(t, label)
+	return pickS(t, label, []string{"a", "", "héllo", `q"uo\te`, "@", "x y", "0"})
 }
 
 type body struct {
@@ -338,14 +369,14 @@ type body struct {
 // genBody draws the method / params part of an element of the given kind.
 // transport matters for pub-sub kinds; freeLive lists the live indices that no
 // other element of the message targets yet.
-func genBody(t *rapid.T, kind, tr string, freeLive *[]int) body {
+func genBody(t *rapid.T, kind, tr string, noisy bool, freeLive *[]int) body {
 	b := body{clean: true, target: -1}
 	meth := func(s string) { b.method = one("method", jstr(s)) }
 	pubsub := tr != "http"
 	switch kind {
 	case "call0":
 		meth("probe_ping")
-		b.params = rapid.SampledFrom([]string{"", "[]", "null"}).Draw(t, "p0")
+		b.params = pickS(t, "p0", []string{"", "[]", "null"})
 		b.canon, b.wantResult = "call", `"pong"`
 	case "call1":
 		s := smallString(t, "a1")
@@ -359,7 +390,7 @@ func genBody(t *rapid.T, kind, tr string, freeLive *[]int) body {
 		b.canon, b.wantResult = "call", jstr(fmt.Sprintf("two:%s:%d", s, n))
 	case "callopt":
 		meth("probe_opt")
-		b.params = rapid.SampledFrom([]string{"[]", `["v"]`, "[null]", ""}).Draw(t, "popt")
+		b.params = pickS(t, "popt", []string{"[]", `["v"]`, "[null]", ""})
 	case "callctx":
 		n := rapid.IntRange(0, 9).Draw(t, "a1")
 		meth("probe_ctx")
@@ -377,11 +408,11 @@ func genBody(t *rapid.T, kind, tr string, freeLive *[]int) body {
 	case "modules":
 		meth("rpc_modules")
 	case "badparams":
-		meth(rapid.SampledFrom([]string{"probe_one", "probe_two", "probe_ctx"}).Draw(t, "bpMethod"))
-		b.params = rapid.SampledFrom([]string{"", "[]", `["a","b","c"]`, `[1]`, `{"a":1}`, `"str"`, "null", "5", `[null]`, `["a",1.5]`}).Draw(t, "bpParams")
+		meth(pickS(t, "bpMethod", []string{"probe_one", "probe_two", "probe_ctx"}))
+		b.params = pickS(t, "bpParams", []string{"", "[]", `["a","b","c"]`, `[1]`, `{"a":1}`, `"str"`, "null", "5", `[null]`, `["a",1.5]`})
 	case "sub":
 		meth("probe_subscribe")
-		if rapid.Bool().Draw(t, "plain") {
+		if pick(t, "plain", 2) == 1 {
 			b.params = `["plain"]`
 		} else {
 			b.params = `["feed",` + jstr(smallString(t, "label")) + `]`
@@ -392,52 +423,61 @@ func genBody(t *rapid.T, kind, tr string, freeLive *[]int) body {
 			b.canon = "fail" // the subscription method runs and reports that the transport has no notifier
 		}
 	case "subodd":
-		meth(rapid.SampledFrom([]string{"probe_subscribe", "probe_subscribe", "rpc_subscribe", "zzz_subscribe", "_subscribe", "probe__subscribe", "PROBE_subscribe"}).Draw(t, "soMethod"))
-		b.params = rapid.SampledFrom([]string{`["nosuch"]`, `["feed"]`, `["feed",5]`, `["plain","extra"]`, `["Feed","x"]`, `["feed","a","b"]`, `[]`, "", `[5]`, `{}`, "null", `"feed"`}).Draw(t, "soParams")
-		switch b.params { // the server refuses the whole message when the first parameter is not a string (null is kept out of the clean set to stay conservative)
+		meth(pickS(t, "soMethod", []string{"probe_subscribe", "probe_subscribe", "rpc_subscribe", "zzz_subscribe", "_subscribe", "probe__subscribe", "PROBE_subscribe"}))
+		soParams := []string{`["nosuch"]`, `["feed"]`, `["feed",5]`, `["plain","extra"]`, `["Feed","x"]`, `["feed","a","b"]`, `[]`}
+		if noisy { // first parameter not a string: the server refuses the whole message ("null" is kept out of the clean set to stay conservative)
+			soParams = append(soParams, "", `[5]`, `{}`, "null", `"feed"`)
+		}
+		b.params = pickS(t, "soParams", soParams)
+		switch b.params {
 		case "", `[5]`, `{}`, "null", `"feed"`:
 			b.clean = false
 		}
 	case "unsub-live":
-		ns := rapid.SampledFrom([]string{"probe", "probe", "probe", "rpc", "zzz", ""}).Draw(t, "unsNs")
+		ns := pickS(t, "unsNs", []string{"probe", "probe", "probe", "rpc", "zzz", ""})
 		meth(ns + "_unsubscribe")
 		if pubsub && len(*freeLive) > 0 {
-			i := rapid.IntRange(0, len(*freeLive)-1).Draw(t, "liveIdx")
+			i := pick(t, "liveIdx", len(*freeLive))
 			b.target = (*freeLive)[i]
 			*freeLive = append((*freeLive)[:i:i], (*freeLive)[i+1:]...)
 			b.params = fmt.Sprintf(`["@@L%d@@"]`, b.target)
 			b.canon = "unsub"
 		} else {
 			// over HTTP (or when every live id is already targeted): a live id of another connection
-			o := rapid.SampledFrom(pubsubTransports).Filter(func(o string) bool { return o != tr }).Draw(t, "foreign")
-			b.params = fmt.Sprintf(`["@@F:%s:%d@@"]`, o, rapid.IntRange(0, nLive-1).Draw(t, "foreignIdx"))
+			var others []string
+			for _, o := range pubsubTransports {
+				if o != tr {
+					others = append(others, o)
+				}
+			}
+			b.params = fmt.Sprintf(`["@@F:%s:%d@@"]`, pickS(t, "foreign", others), pick(t, "foreignIdx", nLive))
 		}
 	case "unsub-other":
-		meth(rapid.SampledFrom([]string{"probe_unsubscribe", "x_unsubscribe", "_unsubscribe"}).Draw(t, "uoMethod"))
-		b.params = rapid.SampledFrom([]string{`["@@S@@"]`, `["0x1234"]`, `[""]`, `[5]`, `[]`, "", `[null]`, `{"id":"@@S@@"}`, `["@@S@@","x"]`}).Draw(t, "uoParams")
+		meth(pickS(t, "uoMethod", []string{"probe_unsubscribe", "x_unsubscribe", "_unsubscribe"}))
+		b.params = pickS(t, "uoParams", []string{`["@@S@@"]`, `["0x1234"]`, `[""]`, `[5]`, `[]`, "", `[null]`, `{"id":"@@S@@"}`, `["@@S@@","x"]`})
 	case "unknown-method":
-		meth(rapid.SampledFrom([]string{"probe_nosuch", "probe_Ping", "probe_PING", "probe_", "probe_feed", "probe_enter", "rpc_nosuch", "probe_ping "}).Draw(t, "umMethod"))
-		b.params = rapid.SampledFrom([]string{"", "[]", `["a"]`}).Draw(t, "umParams")
+		meth(pickS(t, "umMethod", []string{"probe_nosuch", "probe_Ping", "probe_PING", "probe_", "probe_feed", "probe_enter", "rpc_nosuch", "probe_ping "}))
+		b.params = pickS(t, "umParams", []string{"", "[]", `["a"]`})
 	case "unknown-ns":
-		meth(rapid.SampledFrom([]string{"zzz_ping", "PROBE_ping", "Probe_ping", "_ping", " probe_ping", "dna_identity", "probe\u0000_ping"}).Draw(t, "unMethod"))
+		meth(pickS(t, "unMethod", []string{"zzz_ping", "PROBE_ping", "Probe_ping", "_ping", " probe_ping", "dna_identity", "probe\u0000_ping"}))
 	case "no-underscore":
-		meth(rapid.SampledFrom([]string{"probeping", "", "ping", "probe.ping", "probe-ping", "subscribe", "unsubscribe"}).Draw(t, "nuMethod"))
-		if rapid.Bool().Draw(t, "nullMethod") {
+		meth(pickS(t, "nuMethod", []string{"probeping", "", "ping", "probe.ping", "probe-ping", "subscribe", "unsubscribe"}))
+		if pick(t, "nullMethod", 4) == 3 {
 			b.method = one("method", "null")
 		}
 	case "two-underscore":
-		meth(rapid.SampledFrom([]string{"probe_ping_x", "probe__ping", "_probe_ping", "probe_ping_"}).Draw(t, "tuMethod"))
+		meth(pickS(t, "tuMethod", []string{"probe_ping_x", "probe__ping", "_probe_ping", "probe_ping_"}))
 	case "dup-method": // two method members; encoding/json keeps the last
-		good, bad := "probe_ping", rapid.SampledFrom([]string{"probe_nosuch", "zzz_ping", "nounderscore"}).Draw(t, "dmBad")
-		name2 := rapid.SampledFrom([]string{"method", "METHOD", "Method"}).Draw(t, "dmName")
-		if rapid.Bool().Draw(t, "goodLast") {
+		good, bad := "probe_ping", pickS(t, "dmBad", []string{"probe_nosuch", "zzz_ping", "nounderscore"})
+		name2 := pickS(t, "dmName", []string{"method", "METHOD", "Method"})
+		if pick(t, "goodLast", 2) == 1 {
 			b.method = []member{{"method", jstr(bad)}, {name2, jstr(good)}}
 		} else {
 			b.method = []member{{"method", jstr(good)}, {name2, jstr(bad)}}
 		}
 	case "odd-member": // a member of the wrong JSON type: the typed decode of the message fails
 		b.clean = false
-		switch rapid.IntRange(0, 3).Draw(t, "omWhich") {
+		switch pick(t, "omWhich", 4) {
 		case 0:
 			b.method = one("method", "5")
 		case 1:
@@ -484,38 +524,45 @@ func render(ms []member, spaced bool) string {
 
 // genElem draws one element. wantKeyed selects between the keyed and the
 // un-keyed variant families (the final decision "carries K" is always made by
-// analyse() with encoding/json).
-func genElem(t *rapid.T, k, tr string, seq int, wantKeyed bool, freeLive *[]int) elemSpec {
-	kind := rapid.SampledFrom(kindPool).Draw(t, "kind")
+// analyse() with encoding/json). Members of a wrong JSON type (including
+// non-string keys) are drawn only when noisy.
+func genElem(t *rapid.T, k, tr string, seq int, wantKeyed, noisy bool, freeLive *[]int) elemSpec {
+	pool := kindPoolQuiet
+	if noisy {
+		pool = kindPoolNoisy
+	}
+	kind := pickS(t, "kind", pool)
 	var kv keyVariant
 	if wantKeyed {
-		kv = rapid.SampledFrom(keyedVariants).Draw(t, "keyedVariant")
+		kv = keyedVariants[pick(t, "keyedVariant", len(keyedVariants))]
 		if kind == "emit" {
 			kind = "call0"
 		}
+	} else if noisy {
+		kv = unkeyedNoisy[pick(t, "unkeyedVariant", len(unkeyedNoisy))]
 	} else {
-		kv = rapid.SampledFrom(unkeyedVariants).Draw(t, "unkeyedVariant")
+		kv = unkeyedQuiet[pick(t, "unkeyedVariant", len(unkeyedQuiet))]
 	}
-	return buildElem(t, k, tr, kind, kv, seq, freeLive)
+	return buildElem(t, k, tr, kind, kv, seq, noisy, freeLive)
 }
 
 // buildElem renders an element of the given kind with the given key variant.
-func buildElem(t *rapid.T, k, tr, kind string, kv keyVariant, seq int, freeLive *[]int) elemSpec {
+func buildElem(t *rapid.T, k, tr, kind string, kv keyVariant, seq int, noisy bool, freeLive *[]int) elemSpec {
 	e := elemSpec{Kind: kind, KeyVar: kv.label, BadKeyType: kv.badType, Target: -1}
 	keyMembers := kv.members(t, k)
 	exact := one("key", jstr(k))
 
 	if kind == "garbage-elem" {
-		e.Text = rapid.SampledFrom(garbageElems).Draw(t, "garbageElem")
+		e.Text = pickS(t, "garbageElem", garbageElems)
 		e.Twin = e.Text
 		e.KeyVar = "none(garbage)"
 		e.BadKeyType = false
 		return e
 	}
 
-	b := genBody(t, kind, tr, freeLive)
-	id := genID(t, seq)
-	ver := genVersion(t)
+	b := genBody(t, kind, tr, noisy, freeLive)
+	id := genID(t, seq, noisy)
+	ver := genVersion(t, noisy)
 
 	var rest []member
 	rest = append(rest, ver.m...)
@@ -526,7 +573,13 @@ func buildElem(t *rapid.T, k, tr, kind string, kv keyVariant, seq int, freeLive 
 	if b.params != "" {
 		rest = append(rest, member{"params", b.params})
 	}
-	switch rapid.IntRange(0, 5).Draw(t, "order") {
+	switch pick(t, "order", 6) {
+	case 5: // method first, as the node's own clients write it
+		for i := range rest {
+			if rest[i].name == "method" {
+				rest[0], rest[i] = rest[i], rest[0]
+			}
+		}
 	case 0: // reversed
 		for i, j := 0, len(rest)-1; i < j; i, j = i+1, j-1 {
 			rest[i], rest[j] = rest[j], rest[i]
@@ -536,10 +589,10 @@ func buildElem(t *rapid.T, k, tr, kind string, kv keyVariant, seq int, freeLive 
 			rest = append(rest[1:], rest[0])
 		}
 	}
-	if rapid.IntRange(0, 7).Draw(t, "junk") == 0 {
-		rest = append(rest, member{rapid.SampledFrom([]string{"foo", "extra", "Params ", "ke", "ID2"}).Draw(t, "junkName"), `{"key":1,"x":[1,2]}`})
+	if chance(t, "junk", 12) {
+		rest = append(rest, member{pickS(t, "junkName", []string{"foo", "extra", "Params ", "ke", "ID2"}), `{"key":1,"x":[1,2]}`})
 	}
-	pos := rapid.IntRange(0, len(rest)).Draw(t, "keyPos")
+	pos := pick(t, "keyPos", len(rest)+1)
 	build := func(km []member) []member {
 		out := make([]member, 0, len(rest)+len(km))
 		out = append(out, rest[:pos]...)
@@ -547,7 +600,7 @@ func buildElem(t *rapid.T, k, tr, kind string, kv keyVariant, seq int, freeLive 
 		out = append(out, rest[pos:]...)
 		return out
 	}
-	spaced := rapid.IntRange(0, 9).Draw(t, "spaced") == 0
+	spaced := chance(t, "spaced", 10)
 	e.Text = render(build(keyMembers), spaced)
 	e.Twin = render(build(exact), spaced)
 	e.Clean = b.clean && id.valid && ver.clean && !kv.badType
@@ -569,49 +622,51 @@ func (e *elemSpec) analyse(k string) {
 
 func genMessage(t *rapid.T, k string) *message {
 	m := &message{}
-	m.Transport = rapid.SampledFrom([]string{"http", "http", "http", "ws", "ws", "ipc", "ipc", "inproc"}).Draw(t, "transport")
+	m.Transport = pickS(t, "transport", []string{"http", "http", "http", "ws", "ws", "ipc", "ipc", "inproc"})
 	if m.Transport == "http" {
-		switch c := rapid.IntRange(0, 19).Draw(t, "httpVariant"); {
-		case c == 0:
-			m.HTTP.Method = "GET"
+		switch c := pick(t, "httpVariant", 20); {
 		case c == 1:
-			m.HTTP.Method = "OPTIONS"
+			m.HTTP.Method = "GET"
 		case c == 2:
-			m.HTTP.Query = "?key=" + queryEscape(k)
+			m.HTTP.Method = "OPTIONS"
 		case c == 3:
-			m.HTTP.Query = "?apikey=" + queryEscape(k)
+			m.HTTP.Query = "?key=" + queryEscape(k)
 		case c == 4:
-			m.HTTP.Header = [][2]string{{"Authorization", "Bearer " + headerSafe(k)}}
+			m.HTTP.Query = "?apikey=" + queryEscape(k)
 		case c == 5:
-			m.HTTP.Header = [][2]string{{"X-Api-Key", headerSafe(k)}, {"Key", headerSafe(k)}}
+			m.HTTP.Header = [][2]string{{"Authorization", "Bearer " + headerSafe(k)}}
 		case c == 6:
+			m.HTTP.Header = [][2]string{{"X-Api-Key", headerSafe(k)}, {"Key", headerSafe(k)}}
+		case c == 7:
 			m.HTTP.Header = [][2]string{{"Content-Type", "application/json; charset=utf-8"}, {"Origin", "http://evil.example"}}
 		}
 	}
-	m.Lead = rapid.SampledFrom([]string{"", "", "", " ", "\n\t ", "\r\n"}).Draw(t, "lead")
-	m.Cycle = rapid.Bool().Draw(t, "cycle")
-	shape := rapid.IntRange(0, 19).Draw(t, "shape")
-	if shape == 0 {
-		m.Garbage = rapid.SampledFrom(garbageMessages).Draw(t, "garbageMessage")
+	m.Lead = pickS(t, "lead", []string{"", "", "", " ", "\n\t ", "\r\n"})
+	m.Cycle = pick(t, "cycle", 2) == 1
+	// 0: single  1: batch  2: noisy single  3: noisy batch  4: garbage message
+	shape := []int{0, 0, 0, 0, 0, 0, 1, 1, 1, 1, 1, 1, 1, 1, 1, 2, 2, 3, 3, 3, 3, 4}[pick(t, "shape", 22)]
+	if shape == 4 {
+		m.Garbage = pickS(t, "garbageMessage", garbageMessages)
 		return m
 	}
+	noisy := shape >= 2
 	n := 1
-	if shape >= 8 {
+	if shape == 1 || shape == 3 {
 		m.Batch = true
-		n = rapid.IntRange(1, 8).Draw(t, "batchLen")
+		n = 1 + pick(t, "batchLen", 8)
 	}
 	free := make([]int, nLive)
 	for i := range free {
 		free[i] = i
 	}
-	// In batches, bias toward a mix of keyed and un-keyed elements.
-	pKeyed := rapid.SampledFrom([]int{0, 25, 40, 40, 60}).Draw(t, "keyedPercent")
+	// In batches, lean toward a mix of keyed and un-keyed elements.
+	pKeyed := []int{0, 25, 40, 40, 60}[pick(t, "keyedPercent", 5)]
 	for i := 0; i < n; i++ {
-		wantKeyed := rapid.IntRange(0, 99).Draw(t, "keyedDie") < pKeyed
-		e := genElem(t, k, m.Transport, i, wantKeyed, &free)
+		wantKeyed := pick(t, "keyedDie", 100) < pKeyed
+		e := genElem(t, k, m.Transport, i, wantKeyed, noisy, &free)
 		e.analyse(k)
 		if e.keyed && strings.Contains(e.w.Method, "probe_emit") {
-			// cannot happen by construction; keep the main world free of keyed emits
+			// cannot happen by construction; the main world must stay free of keyed emits
 			t.Fatalf("harness: generated a keyed emit element: %s", e.Text)
 		}
 		m.Elems = append(m.Elems, e)
